@@ -290,6 +290,25 @@ func c07foreignByte(r *vf.Rand) byte {
 	}
 }
 
+// c07foreignRune returns a valid multi-byte UTF-8 sequence that is foreign to
+// every alphabet here but becomes an alphabet character when a decoder
+// confuses runes with bytes (low byte of the code point in the alphabet) or
+// folds case with Unicode rules (Kelvin sign, long s, dotted I, fullwidth).
+func c07foreignRune(r *vf.Rand) string {
+	switch r.Intn(4) {
+	case 0:
+		return []string{"\u212a", "\u017f", "\u0130", "\u0131", "\uff21", "\uff41", "\uff11"}[r.Intn(7)]
+	default:
+		for {
+			cp := rune(1+r.Intn(0x10ff))<<8 | rune(ref.B58Alphabet[r.Intn(58)])
+			if cp >= 0xd800 && cp <= 0xdfff {
+				continue
+			}
+			return string(cp)
+		}
+	}
+}
+
 // seeded strings: first every single byte value alone, in front of, behind
 // and between alphabet characters (directed, 4*256 cases), then random
 // strings up to 700 characters, a third of them with one foreign byte.
@@ -312,7 +331,13 @@ func c07stringsSeeded(c *vf.Ctx, i int) {
 	}
 	s := c07alphaString(c.R, c.R.SkewLen(700))
 	if len(s) > 0 && c.R.Intn(3) == 0 {
-		s[c.R.Intn(len(s))] = c07foreignByte(c.R)
+		k := c.R.Intn(len(s))
+		if c.R.Bool() {
+			s[k] = c07foreignByte(c.R)
+		} else {
+			s = append(append(append([]byte{}, s[:k]...), c07foreignRune(c.R)...), s[k+1:]...)
+			c.Inc("strings_with_foreign_multibyte_rune")
+		}
 	}
 	c07checkString(c, string(s))
 	if c.WantSample() {
@@ -351,8 +376,13 @@ func c07checkStream(c *vf.Ctx, i int) {
 		s = string(b)
 	case "foreign-char":
 		b := []byte(valid)
-		b[r.Intn(len(b))] = c07foreignByte(r)
-		s = string(b)
+		k := r.Intn(len(b))
+		if r.Bool() {
+			b[k] = c07foreignByte(r)
+			s = string(b)
+		} else {
+			s = string(b[:k]) + c07foreignRune(r) + string(b[k+1:])
+		}
 	case "truncated":
 		k := 1 + r.Intn(6)
 		if k > len(valid) {
@@ -537,6 +567,9 @@ func c07bechDecodeStream(c *vf.Ctx, i int) {
 			b[p] = byte(r.Intn(256))
 		}
 		s = string(b)
+		if r.Chance(1, 6) { // multi-byte rune that folds / truncates to a charset character
+			s = string(b[:p]) + c07foreignRune(r) + string(b[p+1:])
+		}
 	case "foreign-in-hrp":
 		b := []byte(valid)
 		p := r.Intn(sep)
@@ -546,6 +579,9 @@ func c07bechDecodeStream(c *vf.Ctx, i int) {
 			b[p] = byte(127 + r.Intn(129))
 		}
 		s = string(b)
+		if r.Chance(1, 6) {
+			s = string(b[:p]) + c07foreignRune(r) + string(b[p+1:])
+		}
 	case "separator":
 		switch r.Intn(7) {
 		case 0: // separator removed
